@@ -437,6 +437,7 @@ func runScenario(t *rapid.T, sc *scenario) string {
 		anyJSON = anyJSON || f.js.present
 	}
 	var argv []string
+	var groups [][]string // one entry per flag occurrence: the built-in -help is inserted between entries
 	carrier := sc.carrier
 	if anyJSON || carrier == 2 {
 		real := sc.jsonDoc(false, t)
@@ -447,9 +448,9 @@ func runScenario(t *rapid.T, sc *scenario) string {
 				panic(err)
 			}
 			if rapid.Bool().Draw(t, "cfgform") {
-				argv = append(argv, "-config="+p)
+				groups = append(groups, []string{"-config=" + p})
 			} else {
-				argv = append(argv, "--config", p)
+				groups = append(groups, []string{"--config", p})
 			}
 			if carrier == 2 {
 				os.Setenv("CFG_CONFIG_B64", base64.StdEncoding.EncodeToString(sc.jsonDoc(true, t)))
@@ -475,11 +476,11 @@ func runScenario(t *rapid.T, sc *scenario) string {
 				dashes = "--"
 			}
 			if f.kind == "bool" && v == "true" && form >= 2 {
-				argv = append(argv, dashes+f.flagName)
+				groups = append(groups, []string{dashes + f.flagName})
 			} else if form >= 2 && f.kind != "bool" {
-				argv = append(argv, dashes+f.flagName, v)
+				groups = append(groups, []string{dashes + f.flagName, v})
 			} else {
-				argv = append(argv, dashes+f.flagName+"="+v)
+				groups = append(groups, []string{dashes + f.flagName + "=" + v})
 			}
 		}
 		if f.cliDup != nil {
@@ -487,9 +488,27 @@ func runScenario(t *rapid.T, sc *scenario) string {
 		}
 		emit(v, f.cliForm)
 	}
+	// the built-in -help flag is an ordinary boolean flag of the command line: it decides ShowUsage() and nothing else,
+	// the fields still get their values by the same priority
+	wantUsage := false
+	for n := rapid.SampledFrom([]int{0, 0, 0, 1, 1, 2}).Draw(t, "helpMentions"); n > 0; n-- {
+		h := rapid.SampledFrom([]string{"-help", "--help", "-help=true", "--help=false", "-help=1", "-help=0", "--help=T"}).Draw(t, "help")
+		at := rapid.IntRange(0, len(groups)).Draw(t, "helpAt")
+		groups = append(groups[:at], append([][]string{{h}}, groups[at:]...)...)
+	}
+	for _, g := range groups {
+		argv = append(argv, g...)
+		if h := strings.TrimLeft(g[0], "-"); h == "help" || strings.HasPrefix(h, "help=") {
+			wantUsage = !(strings.HasSuffix(h, "=false") || strings.HasSuffix(h, "=0"))
+			ev.Label("gen:help_flag_on_command_line")
+		}
+	}
 	argv = append(argv, sc.tail...)
 	if err := fs.Parse(argv); err != nil {
 		return fmt.Sprintf("Parse(%q) = %v, want nil", argv, err)
+	}
+	if fs.ShowUsage() != wantUsage {
+		return fmt.Sprintf("ShowUsage() = %v after Parse(%q), want %v (the last -help on the command line decides)", fs.ShowUsage(), argv, wantUsage)
 	}
 	for _, f := range sc.fields {
 		got := ptr.Elem().FieldByIndex(f.index).Interface()
